@@ -31,6 +31,8 @@ ASSUMPTIONS = [
     "tolerance 1e-9 x max(1, largest |coordinate| of polyline and query) on every length compared",
     "proj_segment is only called on a segment of non-zero length (proj_polyligne skips the others itself)",
     "any segment that carries the returned point is accepted as 'the index' (ties at a shared vertex are free)",
+    "a case carries 1..5 query points for one polyline; every query is judged on its own (mapOnTrack(track, track) "
+    "gets them in one call); a query whose failure has a recorded vertical-segment key never hides another query's failure",
 ]
 
 
@@ -110,8 +112,8 @@ def _judge(ref, dist, px, py, idx, what):
     failed = []
     msg = []
     if idx is not None:
-        ok = isinstance(idx, numbers.Real) and not isinstance(idx, bool) and idx == int(idx) \
-            and 0 <= idx < len(ref.segs) and ref.orient[int(idx)] != "zero"
+        ok = isinstance(idx, numbers.Real) and not isinstance(idx, bool) and math.isfinite(idx) \
+            and idx == int(idx) and 0 <= idx < len(ref.segs) and ref.orient[int(idx)] != "zero"
         if not ok:
             raise Violation("bad-index", "%s returns segment index %r for %d vertices %s" % (what, idx, len(ref.pts), ref.pts))
         carrier = int(idx)
@@ -215,7 +217,7 @@ def _info(refs, kinds):
     return {"nt": nt, "cls": cls}
 
 
-def _prep(case, single=False):
+def _prep(case):
     pts = [[float(p[0]), float(p[1])] for p in case["pts"]]
     qs = [[float(q[0]), float(q[1])] for q in case["qs"]]
     kinds = list(case.get("kinds") or ["?"] * len(qs))
@@ -448,17 +450,19 @@ def strat_map_track():
 RULE = ("Hypothesis: start vertex + 1..7 steps of class oblique / horizontal / vertical / zero-length / short (< 0.1), "
         "coordinates n/1000 (1/8 lattice of [-16,16]^2 with offsets 0.1, 0.3, +-0.001); query relative to a proper segment "
         "(beside: foot at k/8 of the segment, off by s/8 segment lengths; beyond: parameter -1..2 outside [0,1]; on: s = 0), "
-        "at a vertex, far (100..1000 away), free in the box, or sharing x or y with a vertex.  "
-        "Non-trivial: the true nearest point is a foot strictly inside a segment (by more than the tolerance), not a vertex.  "
+        "at a vertex, far (100..1000 away), free in the box, or sharing x or y with a vertex; 1..4 queries per polyline "
+        "(1..5 for mapOnTrack(track, track)).  "
+        "Non-trivial: for at least one query the true nearest point is a foot strictly inside a segment (by more than the "
+        "tolerance), not a vertex.  "
         "Distinct = hash of the case.")
 
 SUBCHECKS = [
-    SubCheck("segment", body_segment, strategy=strat_segment, quick=12000, thorough=400000,
+    SubCheck("segment", body_segment, strategy=strat_segment, quick=12000, thorough=300000,
              rule="proj_segment on one proper segment, 1..4 queries"),
-    SubCheck("polyline", body_polyline, strategy=strat_polyline, quick=12000, thorough=400000,
+    SubCheck("polyline", body_polyline, strategy=strat_polyline, quick=12000, thorough=300000,
              rule="proj_polyligne(X, Y, x, y) on 2..8 vertices, 1..4 queries"),
-    SubCheck("map_coord", body_map_coord, strategy=strat_polyline, quick=8000, thorough=200000,
+    SubCheck("map_coord", body_map_coord, strategy=strat_polyline, quick=8000, thorough=150000,
              rule="mapOnTrack(ENUCoords, track), 1..4 queries"),
-    SubCheck("map_track", body_map_track, strategy=strat_map_track, quick=8000, thorough=200000,
+    SubCheck("map_track", body_map_track, strategy=strat_map_track, quick=8000, thorough=150000,
              rule="mapOnTrack(track, track), 1..5 queries in one call"),
 ]
